@@ -67,6 +67,9 @@ EXTRA = {
     'bibitem_label': ['cat', A, '\n', ['G', '\\begin{thebibliography}{9}', None], '\n',
                       ['G', '\\bibitem{k}', None], ' ', B, '\n', ['G', '\\bibitem[Kn84]{knuth}', None], ' ', A,
                       '\n', ['G', '\\end{thebibliography}', None], '\n', B],
+    # code listing holding a '$' (shell code): removed as a whole, nothing of it may show and
+    # the text behind it is untouched -- open known finding KF-lstlisting (see DESIGN section 7)
+    'lstlisting_dollar': ['cat', A, '\n', ['removed_env', 'lstlisting', '\necho $HOME\n'], '\n', B],
     'tabular_pos': ['cat', A, ' ', ['G', '\\begin{tabular}[t]{ll}', None], T('a'), ' ', ['special', '&'],
                     ' ', B, ['G', '\\end{tabular}', None], ' ', A],
 }
@@ -75,7 +78,7 @@ EXTRA = {
 def items(tier, seed):
     tw = {'h': 'fam', 'name': 'twin', 'spec': family.doc(family.ATOMS[0]), 'tag': 'C03',
           'twin': True}
-    ex = [{'h': 'fam', 'name': 'extra:' + n, 'spec': sp, 'tag': 'C03', 'opts': {}}
+    ex = [{'h': 'fam', 'name': 'extra:' + n, 'spec': sp, 'tag': 'C03', 'opts': {'pack': '*'}}
           for n, sp in EXTRA.items()]
     return fc.items(tier, seed, 'C03', [tw] + ex) + sketches(tier)
 
